@@ -1,16 +1,300 @@
 package eng
 
 import (
+	"fmt"
 	"go/token"
 	"go/types"
+	"runtime"
+	"strings"
 
 	"golang.org/x/tools/go/ssa"
 )
 
-// threadState is non-nil while a thread-mode harness runs (see threads_impl.go).
+// Thread mode ("fork mode"): explicit-path symbolic execution of a small concurrent harness.
+//
+//   * the harness starts threads with vpGo and runs the scheduler with vpWait;
+//   * a thread runs atomically between VISIBLE operations (mutex / rwmutex / cond operations, context
+//     cancellation, the non-blocking ctx.Done() poll, vpYield); before each visible operation the scheduler picks
+//     the next thread among those whose pending operation is enabled;
+//   * nothing is merged: every symbolic branch and every scheduling choice is a DECISION; the driver (runThreads)
+//     re-executes the harness once per decision sequence (depth-first), data stays symbolic along each path and the
+//     solver closes every path's obligations; infeasible branch sides are pruned with a solver call;
+//   * sync.Cond is modelled as the runtime implements it: Wait = {add ticket; unlock} then block until the ticket is
+//     notified, then re-lock; Signal/Broadcast need no lock and wake only tickets already registered. That is what
+//     makes "cancel lands between the context check and the wait" expressible;
+//   * a state in which no thread can move is a deadlock: the harness inspects it with vpThreadDone.
+//
+// Engine threads are Go goroutines passing a baton, so exactly one evaluates at any time.
+
 type threadState struct {
 	impl *threadImpl
 }
+
+type thrStatus int
+
+const (
+	thrRunnable thrStatus = iota
+	thrDone
+	thrCancelled // AfterFunc callback unregistered before it started
+)
+
+type pendingOp struct {
+	kind string // "", lock, rlock, condwait, join
+	key  string
+	tick int
+}
+
+type thr struct {
+	id      int
+	desc    string
+	status  thrStatus
+	started bool
+	wake    chan struct{}
+	op      pendingOp
+	body    func()
+	// evaluator context saved while the thread is not running
+	G        *Term
+	catchers []*Catcher
+	depth    int
+	curPos   token.Pos
+	afterKey string // registration key when the thread is an AfterFunc callback
+}
+
+type lockState struct {
+	writer  int // thread id or -1
+	readers int
+}
+
+type condState struct {
+	nextTicket int
+	waiting    []int // tickets registered and not yet notified
+	notified   map[int]bool
+}
+
+type decision struct {
+	chosen, n int
+	branch    bool // a symbolic branch side (not a scheduling choice)
+}
+
+type threadImpl struct {
+	e         *Engine
+	threads   []*thr
+	cur       int
+	prefix    []int
+	taken     []decision
+	locks     map[string]*lockState
+	conds     map[string]*condState
+	deadlock  bool
+	err       interface{}
+	kill      bool
+	afterRegs map[string][]*thr // ctx object key -> callback threads not yet started
+	steps     int
+}
+
+func newThreadImpl(e *Engine, prefix []int) *threadImpl {
+	ti := &threadImpl{e: e, prefix: prefix, locks: map[string]*lockState{}, conds: map[string]*condState{}, afterRegs: map[string][]*thr{}}
+	main := &thr{id: 0, desc: "main", started: true, wake: make(chan struct{}, 1)}
+	ti.threads = []*thr{main}
+	return ti
+}
+
+// decide returns the next decision among n options (n >= 2), replaying the prefix first.
+func (ti *threadImpl) decide(n int) int {
+	k := len(ti.taken)
+	c := 0
+	if k < len(ti.prefix) {
+		c = ti.prefix[k]
+		if c >= n {
+			panic(ti.e.unsupported("thread mode: decision prefix does not fit (non-deterministic re-execution)"))
+		}
+	}
+	ti.taken = append(ti.taken, decision{chosen: c, n: n})
+	return c
+}
+
+// branch decides a symbolic branch: infeasible sides are pruned with the solver, the chosen side's condition joins
+// the global path condition.
+func (ti *threadImpl) branch(c *Term) bool {
+	e := ti.e
+	tb := e.tb
+	canT := e.feasible(tb.And(e.G, c))
+	canF := e.feasible(tb.And(e.G, tb.Not(c)))
+	var side bool
+	switch {
+	case canT && canF:
+		side = ti.decide(2) == 0
+		ti.taken[len(ti.taken)-1].branch = true
+	case canT:
+		side = true
+	default:
+		side = false
+	}
+	if side {
+		e.andAssume(tb.Implies(e.G, c))
+	} else {
+		e.andAssume(tb.Implies(e.G, tb.Not(c)))
+	}
+	return side
+}
+
+func (ti *threadImpl) spawn(e *Engine, g *Term, call func(), desc string) *thr {
+	t := &thr{id: len(ti.threads), desc: desc, wake: make(chan struct{}, 1), body: call, G: e.tb.True}
+	ti.threads = append(ti.threads, t)
+	go func() {
+		<-t.wake
+		if ti.kill {
+			return
+		}
+		func() {
+			defer func() {
+				if r := recover(); r != nil {
+					ti.err = r
+				}
+			}()
+			t.started = true
+			ti.restore(t)
+			t.body()
+		}()
+		t.status = thrDone
+		ti.handoff(t, true)
+	}()
+	return t
+}
+
+func (ti *threadImpl) save(t *thr) {
+	e := ti.e
+	t.G, t.catchers, t.depth, t.curPos = e.G, e.catchers, e.depth, e.curPos
+}
+
+func (ti *threadImpl) restore(t *thr) {
+	e := ti.e
+	e.G, e.catchers, e.depth, e.curPos = t.G, t.catchers, t.depth, t.curPos
+	ti.cur = t.id
+}
+
+func (ti *threadImpl) enabled(t *thr) bool {
+	if t.status != thrRunnable {
+		return false
+	}
+	switch t.op.kind {
+	case "":
+		return true
+	case "lock":
+		l := ti.lock(t.op.key)
+		return l.writer == -1 && l.readers == 0
+	case "rlock":
+		return ti.lock(t.op.key).writer == -1
+	case "condwait":
+		return ti.cond(t.op.key).notified[t.op.tick]
+	case "join":
+		for _, o := range ti.threads {
+			if o.id != t.id && o.status == thrRunnable {
+				return false
+			}
+		}
+		return true
+	}
+	return false
+}
+
+func (ti *threadImpl) lock(k string) *lockState {
+	l := ti.locks[k]
+	if l == nil {
+		l = &lockState{writer: -1}
+		ti.locks[k] = l
+	}
+	return l
+}
+
+func (ti *threadImpl) cond(k string) *condState {
+	c := ti.conds[k]
+	if c == nil {
+		c = &condState{notified: map[int]bool{}}
+		ti.conds[k] = c
+	}
+	return c
+}
+
+// schedule is called by the running thread t right before a visible operation (recorded in t.op). It returns when t
+// has been chosen to perform it.
+func (ti *threadImpl) schedule(t *thr) {
+	ti.handoff(t, false)
+}
+
+// handoff picks the next thread. finished: t has ended (it never resumes).
+func (ti *threadImpl) handoff(t *thr, finished bool) {
+	if ti.err != nil {
+		// propagate engine errors to the main thread
+		if t.id != 0 {
+			ti.wakeThread(ti.threads[0])
+			if !finished {
+				<-t.wake
+				runtime.Goexit()
+			}
+			return
+		}
+		panic(ti.err)
+	}
+	ti.steps++
+	if ti.steps > 4000 {
+		ti.err = ti.e.unsupported("thread mode: more than 4000 scheduling steps in one execution")
+		ti.handoff(t, finished)
+		return
+	}
+	ti.save(t)
+	var en []*thr
+	for _, o := range ti.threads {
+		if o.id != 0 && ti.enabled(o) {
+			en = append(en, o)
+		}
+	}
+	// the main thread (vpWait / join) only moves when everybody else is done or stuck
+	var next *thr
+	if len(en) == 0 {
+		m := ti.threads[0]
+		if m.op.kind == "join" {
+			for _, o := range ti.threads {
+				if o.id != 0 && o.status == thrRunnable {
+					ti.deadlock = true
+				}
+			}
+			next = m
+		} else if ti.enabled(m) {
+			next = m
+		} else {
+			ti.err = ti.e.unsupported("thread mode: the harness's main thread is blocked outside vpWait")
+			next = m
+		}
+	} else if len(en) == 1 {
+		next = en[0]
+	} else {
+		next = en[ti.decide(len(en))]
+	}
+	if next == t && !finished {
+		ti.restore(t)
+		return
+	}
+	ti.wakeThread(next)
+	if finished {
+		return
+	}
+	<-t.wake
+	if ti.kill {
+		runtime.Goexit()
+	}
+	if ti.err != nil && t.id == 0 {
+		panic(ti.err)
+	}
+	ti.restore(t)
+}
+
+func (ti *threadImpl) wakeThread(t *thr) {
+	t.wake <- struct{}{}
+}
+
+func (ti *threadImpl) curThr() *thr { return ti.threads[ti.cur] }
+
+// ---- operations called from the evaluator -----------------------------------------------------------
 
 func (t *threadState) spawn(e *Engine, call func(), desc string) { t.impl.spawn(e, e.G, call, desc) }
 func (t *threadState) spawnGuarded(e *Engine, g *Term, call func(), desc string) {
@@ -22,21 +306,199 @@ func (t *threadState) chanSend(e *Engine, c *ChanV, v Value, pos token.Pos) {
 func (t *threadState) chanRecv(e *Engine, c *ChanV, et types.Type, pos token.Pos) (Value, *Term) {
 	panic(e.unsupported("channel receive in thread mode"))
 }
+
+// selectStmt: only the non-blocking poll of ctx.Done() (`select { case <-ctx.Done(): ... default: }`) is supported.
 func (t *threadState) selectStmt(e *Engine, fr *Frame, x *ssa.Select) Value {
-	return t.impl.selectStmt(e, fr, x)
+	ti := t.impl
+	tb := e.tb
+	if x.Blocking || len(x.States) != 1 || x.States[0].Dir == types.SendOnly {
+		panic(e.unsupported("select in thread mode (only the non-blocking ctx.Done() poll is supported)"))
+	}
+	cv := e.operand(fr, x.States[0].Chan).(*ChanV)
+	if len(cv.Alts) != 1 || cv.Alts[0].Obj == nil || cv.Alts[0].Obj.Ctx == nil {
+		panic(e.unsupported("select in thread mode on a channel that is not ctx.Done()"))
+	}
+	th := ti.curThr()
+	th.op = pendingOp{}
+	ti.schedule(th) // visible: the poll observes the cancellation flag
+	c := e.ctxCancelled(cv.Alts[0].Obj.Ctx)
+	if !c.IsConst() {
+		panic(e.unsupported("thread mode: symbolic cancellation state"))
+	}
+	et := x.States[0].Chan.Type().Underlying().(*types.Chan).Elem()
+	if c.IsTrue() {
+		return &TupleV{[]Value{tb.Int(0), tb.False, e.zero(et)}}
+	}
+	return &TupleV{[]Value{tb.Int(-1), tb.False, e.zero(et)}}
 }
+
 func (t *threadState) syncOp(e *Engine, name string, a []Value, pos token.Pos) Value {
-	return t.impl.syncOp(e, name, a, pos)
+	ti := t.impl
+	th := ti.curThr()
+	short := name[strings.LastIndex(name, ".")+1:]
+	isCond := strings.Contains(name, "sync.Cond")
+	isRW := strings.Contains(name, "sync.RWMutex")
+	switch {
+	case isCond && short == "Wait":
+		ck := e.ghostKey(a[0], "cond")
+		lk := ti.condLockKey(e, a[0], pos)
+		// scheduling point BEFORE the waiter registers: a Broadcast that lands here is lost, as in the runtime
+		th.op = pendingOp{}
+		ti.schedule(th)
+		c := ti.cond(ck)
+		tick := c.nextTicket
+		c.nextTicket++
+		c.waiting = append(c.waiting, tick)
+		l := ti.lock(lk)
+		if l.writer != th.id {
+			e.runtimePanic("sync: unlock of unlocked mutex (Cond.Wait without holding L)", pos, e.tb.True)
+			return nil
+		}
+		l.writer = -1
+		th.op = pendingOp{kind: "condwait", key: ck, tick: tick}
+		ti.schedule(th)
+		delete(c.notified, tick)
+		th.op = pendingOp{kind: "lock", key: lk}
+		ti.schedule(th)
+		ti.lock(lk).writer = th.id
+		th.op = pendingOp{}
+		return nil
+	case isCond && (short == "Signal" || short == "Broadcast"):
+		ck := e.ghostKey(a[0], "cond")
+		// (no scheduling point: under data-race freedom the notification commutes with everything except the
+		// registration of waiters, and Wait has its own scheduling point right before it registers)
+		c := ti.cond(ck)
+		if short == "Signal" {
+			if len(c.waiting) > 0 {
+				c.notified[c.waiting[0]] = true
+				c.waiting = c.waiting[1:]
+			}
+		} else {
+			for _, w := range c.waiting {
+				c.notified[w] = true
+			}
+			c.waiting = nil
+		}
+		return nil
+	case short == "Lock":
+		k := e.ghostKey(a[0], "mutex")
+		th.op = pendingOp{kind: "lock", key: k}
+		ti.schedule(th)
+		ti.lock(k).writer = th.id
+		th.op = pendingOp{}
+		return nil
+	case short == "Unlock":
+		k := e.ghostKey(a[0], "mutex")
+		l := ti.lock(k)
+		if l.writer == -1 {
+			e.runtimePanic("sync: unlock of unlocked mutex", pos, e.tb.True)
+			return nil
+		}
+		l.writer = -1
+		th.op = pendingOp{} // (no scheduling point after a release: the thread runs on to its next acquire/visible operation)
+		return nil
+	case isRW && short == "RLock":
+		k := e.ghostKey(a[0], "mutex")
+		th.op = pendingOp{kind: "rlock", key: k}
+		ti.schedule(th)
+		ti.lock(k).readers++
+		th.op = pendingOp{}
+		return nil
+	case isRW && short == "RUnlock":
+		k := e.ghostKey(a[0], "mutex")
+		l := ti.lock(k)
+		if l.readers == 0 {
+			e.runtimePanic("sync: RUnlock of unlocked RWMutex", pos, e.tb.True)
+			return nil
+		}
+		l.readers--
+		th.op = pendingOp{}
+		return nil
+	}
+	panic(e.unsupported("thread mode: %s", name))
 }
 
-type threadImpl struct{}
+// condLockKey finds the key of the mutex c.L points to.
+func (ti *threadImpl) condLockKey(e *Engine, condPtr Value, pos token.Pos) string {
+	cp := condPtr.(*Ptr)
+	sv, ok := e.load(cp, pos).(*StructV)
+	if !ok {
+		panic(e.unsupported("thread mode: sync.Cond value"))
+	}
+	for _, f := range sv.F {
+		if iv, ok := f.(*IfaceV); ok {
+			for _, al := range iv.Alts {
+				if al.T != nil {
+					return e.ghostKey(al.V, "mutex")
+				}
+			}
+		}
+	}
+	panic(e.unsupported("thread mode: sync.Cond without L"))
+}
 
-func (t *threadImpl) spawn(e *Engine, g *Term, call func(), desc string) {
-	panic(e.unsupported("thread mode not built"))
+// ---- context.AfterFunc in thread mode ------------------------------------------------------------------
+
+func (ti *threadImpl) afterFunc(e *Engine, ctx *Object, fv *FuncV) (stopKey string) {
+	key := fmt.Sprintf("af%d", len(ti.afterRegs))
+	t := ti.spawnParked(e, func() { e.callFuncV(fv, nil, token.NoPos) }, "context.AfterFunc callback")
+	t.afterKey = key
+	ck := fmt.Sprintf("ctx%d", ctx.ID)
+	if e.ctxCancelled(ctx).IsTrue() {
+		// already cancelled: the callback is runnable at once
+		return key
+	}
+	t.status = thrCancelled // not runnable until the context is cancelled
+	ti.afterRegs[ck] = append(ti.afterRegs[ck], t)
+	return key
 }
-func (t *threadImpl) selectStmt(e *Engine, fr *Frame, x *ssa.Select) Value {
-	panic(e.unsupported("thread mode not built"))
+
+func (ti *threadImpl) spawnParked(e *Engine, call func(), desc string) *thr {
+	return ti.spawn(e, e.tb.True, call, desc)
 }
-func (t *threadImpl) syncOp(e *Engine, name string, a []Value, pos token.Pos) Value {
-	panic(e.unsupported("thread mode not built"))
+
+// onCancel makes the registered callbacks of ctx (and of its descendants) runnable.
+func (ti *threadImpl) onCancel(e *Engine, ctx *Object) {
+	ck := fmt.Sprintf("ctx%d", ctx.ID)
+	for _, t := range ti.afterRegs[ck] {
+		if t.status == thrCancelled && !t.started && t.afterKey != "" {
+			t.status = thrRunnable
+		}
+	}
+	delete(ti.afterRegs, ck)
+	for _, ch := range e.ctxChildren[ctx] {
+		ti.onCancel(e, ch)
+	}
+}
+
+// stop unregisters a callback that has not started yet (returns whether it did so).
+func (ti *threadImpl) stop(key string) bool {
+	for _, t := range ti.threads {
+		if t.afterKey == key && !t.started {
+			t.status = thrCancelled
+			t.afterKey = ""
+			for ck, l := range ti.afterRegs {
+				var keep []*thr
+				for _, x := range l {
+					if x != t {
+						keep = append(keep, x)
+					}
+				}
+				ti.afterRegs[ck] = keep
+			}
+			return true
+		}
+	}
+	return false
+}
+
+// shutdown releases every parked engine goroutine at the end of an execution.
+func (ti *threadImpl) shutdown() {
+	ti.kill = true
+	for _, t := range ti.threads[1:] {
+		select {
+		case t.wake <- struct{}{}:
+		default:
+		}
+	}
 }
